@@ -173,7 +173,7 @@ pub fn run(args: &Args, rec: &mut Recorder) {
     rec.rule = "evaluation = one valid document with one unknown element inserted at one block-level slot, loaded in non-strict mode (model must equal the model of the unmodified document, log must be the baseline log plus exactly one UnknownSubBlock naming the inserted tag) and in strict mode (must fail with UnknownSubBlock naming the tag); distinct_nontrivial = distinct modified texts by content hash".into();
     rec.assumptions.push("payload words are disjoint from all grammar tags; a bare unknown keyword is not inserted directly behind an open-ended identifier list (there it is a list member by definition); slots are inside /begin../end blocks that have optional sub-elements".into());
     let g = Grammar::load_default();
-    let n_docs: u64 = if args.thorough { 100_000 } else { 5_000 };
+    let n_docs: u64 = if args.thorough { 100_000 } else { 15_000 };
     let max_slots = if args.thorough { usize::MAX } else { 20 };
     let scratch = crate::c03::scratch_dir(args);
     run_cases(args, rec, n_docs, crate::util::reset_budget, |rng, case, rec| {
